@@ -1,8 +1,7 @@
 #!/bin/sh
-# usage: tools/detect_batch.sh <id>:<check> ...   (run from a snapshot via `vp run`)
+# usage: tools/detect_batch.sh <id>:<check>[:thorough] ...   (run from a snapshot via `vp run`)
 cd "$(dirname "$0")/.."
 for x in "$@"; do
-  id=${x%%:*}; chk=${x##*:}
-  python3 tools/seeded.py detect $id $chk
+  id=$(echo $x | cut -d: -f1); chk=$(echo $x | cut -d: -f2); tier=$(echo $x | cut -d: -f3)
+  if [ "$tier" = "thorough" ]; then python3 tools/seeded.py detect $id $chk --thorough; else python3 tools/seeded.py detect $id $chk; fi
 done
-cat seeded/results.json
